@@ -21,16 +21,17 @@ LEAN_MODULES = ['GnpyProofs.Props.C14']
 THEOREMS = [f'Gnpy.Slots.{t}' for t in (
     'step_blocked_unchanged', 'step_accept_free', 'step_slots_disjoint', 'step_marks_exactly', 'served_cellAt',
     'same_on_all_oms', 'enough_slots', 'step_preserves_wf', 'run_spec', 'history_no_overlap', 'occupancy_is_union',
-    'run_preserves_wf', 'first_fit_lowest', 'last_fit_highest', 'user_fixed_honoured', 'user_fixed_membership', 'reserved_check', 'create_wf',
+    'run_preserves_wf', 'first_fit_lowest', 'last_fit_highest', 'fixed_free_granted', 'user_fixed_honoured', 'user_fixed_membership', 'reserved_check', 'create_wf',
     'stateWF_of_create', 'assignSpectrum_ok', 'assignSpectrum_of', 'spectrumSelection_sound', 'spectrumSelection_first', 'spectrumSelection_last',
     'determineSlotNumbers_pos', 'determineSlotNumbers_fixed', 'nmLoop_spec', 'aggregate_spec', 'restoreOrder_perm',
     'applyPath_spec', 'restoreOrder_positional')] + ['Gnpy.Py.sorted_pairwise', 'Gnpy.Py.sorted_perm']
 PARTIAL = []
 MANIFEST = {
-    'text': '33 Lean 4 theorems over the executable model of spectrum_assignment.py: run_spec / history_no_overlap / '
+    'text': '34 Lean 4 theorems over the executable model of spectrum_assignment.py: run_spec / history_no_overlap / '
             'occupancy_is_union by induction over ANY request list on any well-formed OMS set; step_blocked_unchanged, '
             'step_accept_free, step_marks_exactly, same_on_all_oms, enough_slots, first_fit_lowest (+ last_fit_highest), '
-            'user_fixed_honoured (positional, through order_slots/restore_order), reserved_check; create_wf / '
+            'user_fixed_honoured (positional, through order_slots/restore_order), fixed_free_granted (a free fixed (N, M) is '
+            'accepted), reserved_check; create_wf / '
             'stateWF_of_create show the hypotheses are what build_oms_list produces. The model is tied to the code after '
             'EVERY pth_assign_spectrum call (all bitmaps, N, M, blocking reason, exact) and a ledger-based monitor runs '
             'on the implementation.',
